@@ -152,13 +152,21 @@ Proof.
   destruct op; st_cbn; constructor; st_cbn; d_cbn; d_easy.
 Qed.
 
-Lemma in_drop_swapped : forall p, in_drop p = true -> swapped p = true.
-Proof. intros p. destruct_pc p; cbn; congruence. Qed.
+Lemma in_drop_swapped_p : forall s, cinv s = true -> in_drop (ppc s) = true -> swapped (ppc s) = true.
+Proof.
+  intros s HC Hd. unfold cinv, cinv_b in HC. rewrite Hd in HC.
+  destruct (swapped (ppc s)); auto. rewrite ?andb_false_r in HC. cbn in HC. rewrite ?andb_false_r in HC. discriminate.
+Qed.
+Lemma in_drop_swapped_c : forall s, cinv s = true -> in_drop (cpc s) = true -> swapped (cpc s) = true.
+Proof.
+  intros s HC Hd. unfold cinv, cinv_b in HC. rewrite Hd in HC.
+  destruct (swapped (cpc s)); auto. destruct (in_drop (ppc s)), (swapped (ppc s)); cbn in HC; rewrite ?andb_false_r in HC; discriminate.
+Qed.
 
 Lemma cinv_in_drop_p : forall s, cinv s = true -> in_drop (ppc s) = true ->
   pwas s = false /\ slice_pc (cpc s) = false /\ is_work (cpc s) = false /\ dropped_by (cpc s) (cwas s) = false.
 Proof.
-  intros s HC Hd. pose proof (in_drop_swapped _ Hd) as Hs. dst s. unfold cinv in HC. st_cbn.
+  intros s HC Hd. pose proof (in_drop_swapped_p _ HC Hd) as Hs. dst s. unfold cinv in HC. st_cbn.
   rewrite Hd, Hs in HC. revert HC. generalize (has_freed xppc xpwas). intros fp HC.
   unfold cinv_b in HC.
   destruct_pc xcpc; cbn [swapped in_drop has_freed slice_pc is_work dropped_by] in *;
@@ -168,7 +176,7 @@ Qed.
 Lemma cinv_in_drop_c : forall s, cinv s = true -> in_drop (cpc s) = true ->
   cwas s = false /\ slice_pc (ppc s) = false /\ is_work (ppc s) = false /\ dropped_by (ppc s) (pwas s) = false.
 Proof.
-  intros s HC Hd. pose proof (in_drop_swapped _ Hd) as Hs. dst s. unfold cinv in HC. st_cbn.
+  intros s HC Hd. pose proof (in_drop_swapped_c _ HC Hd) as Hs. dst s. unfold cinv in HC. st_cbn.
   rewrite Hd, Hs in HC. revert HC. generalize (has_freed xcpc xcwas). intros fp HC.
   unfold cinv_b in HC.
   destruct_pc xppc; cbn [swapped in_drop has_freed slice_pc is_work dropped_by] in *;
@@ -212,11 +220,14 @@ Proof.
       * intros E. apply N2Nat.inj in E. apply mod_inj_window in E; lia.
 Qed.
 
-Lemma dinv_pstep : forall cap s, 2 <= cap -> cinv s = true -> dinv cap s -> dinv cap (pstep cap s).
+Lemma dinv_pstep : forall cap s, 2 <= cap -> cinv s = true -> dinv cap s -> dinv cap (pstep false cap s).
 Proof.
   intros cap s Hc HC H. dst s. destruct H. unfold nw, nr, pstep in *. st_cbn.
   subst xpt xtail xch xhead xph xct.
-  pc_cases xppc; constructor; unfold nw, nr; st_cbn; d_cbn; try d_easy.
+  pc_cases xppc;
+  try (exfalso; clear - HC; unfold cinv, cinv_b in HC; st_cbn; cbn [swapped in_drop] in HC;
+       rewrite ?andb_false_r in HC; cbn in HC; discriminate HC);
+  constructor; unfold nw, nr; st_cbn; d_cbn; try d_easy.
   all: try congruence.
   all: try (rewrite app_length; cbn [length]; lia).
   all: try (rewrite length_set_nth; assumption).
@@ -256,11 +267,14 @@ Proof.
     cbn. discriminate.
 Qed.
 
-Lemma dinv_cstep : forall cap s, 2 <= cap -> cinv s = true -> dinv cap s -> dinv cap (cstep cap s).
+Lemma dinv_cstep : forall cap s, 2 <= cap -> cinv s = true -> dinv cap s -> dinv cap (cstep false cap s).
 Proof.
   intros cap s Hc HC H. dst s. destruct H. unfold nw, nr, cstep in *. st_cbn.
   subst xpt xtail xch xhead xph xct.
-  pc_cases xcpc; constructor; unfold nw, nr; st_cbn; d_cbn; try d_easy.
+  pc_cases xcpc;
+  try (exfalso; clear - HC; unfold cinv, cinv_b in HC; st_cbn; cbn [swapped in_drop] in HC;
+       rewrite ?andb_false_r, ?andb_false_l in HC; cbn in HC; destruct (in_drop xppc), (swapped xppc); cbn in HC; rewrite ?andb_false_r in HC; discriminate HC);
+  constructor; unfold nw, nr; st_cbn; d_cbn; try d_easy.
   all: try congruence.
   all: try (rewrite app_length; cbn [length]; lia).
   all: try (rewrite length_set_nth; assumption).
